@@ -345,6 +345,21 @@ func newModelUses(inv, baseline map[string]string) map[string]map[string]int {
 		for _, u := range base {
 			cnt[u]--
 		}
+		// the same call on a renamed or hoisted first argument (`slices.Contains(disabledTags, "img")` for
+		// `slices.Contains(config.Get().DisableHTMLTag, "img")`) is not a new use of the library function
+		tails := map[string]int{}
+		for u, n := range cnt {
+			if n < 0 {
+				tails[tailKey(u)] -= n
+			}
+		}
+		for u, n := range cnt {
+			for n > 0 && tails[tailKey(u)] > 0 {
+				tails[tailKey(u)]--
+				n--
+			}
+			cnt[u] = n
+		}
 		for u, n := range cnt {
 			if n > 0 {
 				if out[k] == nil {
@@ -2338,4 +2353,29 @@ func renameBack(repo string, env []string, overlay map[string][]byte, plan renam
 	}
 	sort.Strings(done)
 	return out, done
+}
+
+// tailKey: the call text with its first argument blanked.
+func tailKey(call string) string {
+	i := strings.IndexByte(call, '(')
+	if i < 0 {
+		return call
+	}
+	depth := 0
+	for j := i + 1; j < len(call); j++ {
+		switch call[j] {
+		case '(', '[', '{':
+			depth++
+		case ')', ']', '}':
+			if depth == 0 {
+				return call[:i+1] + "_" + call[j:]
+			}
+			depth--
+		case ',':
+			if depth == 0 {
+				return call[:i+1] + "_" + call[j:]
+			}
+		}
+	}
+	return call
 }
